@@ -41,7 +41,12 @@ S2(x)  == Prog[x].s2
 (* h lock holder (0 = free), m lock mode ("rc" | "arc"), dead = consumed   *)
 Node(k, d) == [k |-> k, d |-> d, c |-> 0, a |-> 0, b |-> 0, v |-> U, v2 |-> U,
                q |-> <<>>, q2 |-> <<>>, n |-> 0, f |-> TRUE, g |-> FALSE,
-               h |-> 0, m |-> "rc", dead |-> FALSE]
+               h |-> 0, r |-> 0, m |-> "rc", dead |-> FALSE]
+
+(* MutRc = Rc<RefCell>: rc_deref() is a shared borrow, rc_deref_mut() an exclusive one;          *)
+(* MutArc = Arc<Mutex>: both lock the mutex.  h = exclusive holder, r = number of shared borrows *)
+WHeld(nd) == nd.h # 0 \/ nd.r > 0                       \* an exclusive acquisition would fail
+RHeld(nd) == nd.h # 0 \/ (nd.m = "arc" /\ nd.r > 0)    \* a shared acquisition would fail
 
 (* ----- frames ----- *)
 Fr(f, n, t, v, x) == [f |-> f, n |-> n, t |-> t, v |-> v, x |-> x]
@@ -51,6 +56,8 @@ CallC(n)        == Call(n, "C", U)
 CallE(n, e)     == Call(n, "E", e)
 Acq(n)          == Fr("acq", n, "", U, 0)
 Rel(n)          == Fr("rel", n, "", U, 0)
+AcqR(n)         == Fr("acqr", n, "", U, 0)      \* rc_deref()
+RelR(n)         == Fr("relr", n, "", U, 0)
 Body(n, t, v)   == Fr("body", n, t, v, 0)
 Bump(c)         == Fr("bump", 0, "", U, c)
 Sub(x, n)       == Fr("sub", n, "", U, x)
